@@ -898,8 +898,10 @@ def adapt_typehints(
 
                 list_path = Path(val, mode=get_config_read_mode())
                 val = list_path.get_content().splitlines()
+        merge_items = append
         if isinstance(val, NestedArg) and subtypehints is not None:
             val = (prev_val[:-1] if isinstance(prev_val, list) else []) + [val]
+            merge_items = True
         elif isinstance(val, Iterable) and not isinstance(val, (list, str)) and type(val) not in mapping_origin_types:
             val = list(val)
         elif not isinstance(val, list):
@@ -907,7 +909,7 @@ def adapt_typehints(
         if subtypehints is not None:
             val = list(val)
             for n, v in enumerate(val):
-                if isinstance(prev_val, list) and len(prev_val) == len(val):
+                if merge_items and isinstance(prev_val, list) and len(prev_val) == len(val):
                     adapt_kwargs_n = {**deepcopy(adapt_kwargs), "prev_val": prev_val[n]}
                 else:
                     adapt_kwargs_n = deepcopy(adapt_kwargs)
